@@ -283,8 +283,63 @@ impl GenCtx {
             }
             Op::InvalidateAll => self.shadow.clear(),
             Op::Advance { ns } => self.now = self.now.saturating_add(*ns),
+            Op::IterSteps { script } => {
+                for s in script {
+                    match s {
+                        crate::ops::IterStep::Advance { ns } => self.now = self.now.saturating_add(*ns),
+                        crate::ops::IterStep::InvalidateAll => self.shadow.clear(),
+                        crate::ops::IterStep::Next => {}
+                    }
+                }
+            }
             _ => {}
         }
+    }
+
+    /// A stepped iteration: `next()` calls with clock advances (boundary-biased) and, on the
+    /// concurrent cache, an occasional `invalidate_all` in between. Drawn from its own
+    /// stream so that the main stream of a history does not depend on it.
+    fn iter_script(&mut self, cfg: &Config, universe: u16, sub: u64, pos: usize) -> Vec<crate::ops::IterStep> {
+        use crate::ops::IterStep;
+        let mut r = Prng::new(mix(sub, 79, pos as u64));
+        let mut script = Vec::new();
+        let n = r.range(1, universe as u64 + 2) as usize;
+        let mut now = self.now;
+        for _ in 0..n {
+            match r.weighted(&[6, if cfg.has_expiry() { 4 } else { 1 }, if cfg.kind == Kind::Sync { 1 } else { 0 }]) {
+                0 => script.push(IterStep::Next),
+                1 => {
+                    // land on / next to a deadline of some live key, or move a little
+                    let mut ns = *r.pick(&[1u64, 1, MS, SEC, 3 * SEC, 7 * SEC, 10 * SEC]);
+                    if r.chance(6, 10) && !self.shadow.is_empty() {
+                        let keys: Vec<u16> = self.shadow.keys().copied().collect();
+                        let s = &self.shadow[r.pick(&keys)];
+                        let mut dls = Vec::new();
+                        if let Some(d) = cfg.ttl {
+                            dls.push(s.t_mod + d);
+                        }
+                        if let Some(d) = cfg.tti {
+                            dls.push(s.t_acc + d);
+                        }
+                        if !dls.is_empty() {
+                            let dl = *r.pick(&dls);
+                            let target = match r.below(4) {
+                                0 => dl.saturating_sub(1),
+                                1 | 2 => dl,
+                                _ => dl + 1,
+                            };
+                            if target > now {
+                                ns = target - now;
+                            }
+                        }
+                    }
+                    now = now.saturating_add(ns);
+                    script.push(IterStep::Advance { ns });
+                }
+                _ => script.push(IterStep::InvalidateAll),
+            }
+        }
+        script
     }
 }
 
@@ -568,7 +623,14 @@ pub fn generate(pop: Pop, seed: u64, run: u64) -> Trace {
             K_CONTAINS => Op::Contains {
                 k: ctx.key(universe),
             },
-            K_ITER => Op::Iter,
+            K_ITER => {
+                let stepped = !matches!(pop, Pop::SeqPolicy | Pop::Pair) && Prng::new(mix(sub, 80, ops.len() as u64)).chance(1, 3);
+                if stepped {
+                    Op::IterSteps { script: ctx.iter_script(&cfg, universe, sub, ops.len()) }
+                } else {
+                    Op::Iter
+                }
+            }
             K_INVAL => Op::Invalidate {
                 k: ctx.key(universe),
             },
